@@ -80,6 +80,10 @@ def catalogue(tier):
             ("too_many_values", f"insert into {T} values (1, 'a', 3)", "any"),
             ("value_count_cols", f"insert into {T} (a) values (1, 2)", "any"),
             ("drop_table_if_exists", f"drop table if exists {N}", "maybe"),
+            # statements that fail in a LATER internal step, after an earlier step has already changed something
+            # (leaving everything unchanged needs an active roll-back, in whatever way the transaction state is tracked)
+            ("merge_fails_in_second_clause", f"merge into {T} using {U} on {T}.a = {U}.id when matched then update set {T}.b = 'mm' when not matched then insert (zz) values (1)", "any"),
+            ("exists_table_with_lengths", f"create table {T} (a int, b varchar(3)) comment = 'again'", "any"),
         ]
         for i, s, k in tpl:
             out.append((i, lv, s, k))
@@ -108,6 +112,9 @@ def catalogue(tier):
 
 
 STATES_QUICK = [("full", False), ("full", True), ("dbonly", False), ("none", False), ("dbonly", True), ("none", True)]
+# the failing statement runs on the session's long-lived cursor, which earlier began a transaction (with a multi-step
+# statement inside it) that was then ended through the CONNECTION's commit() / rollback(), not through that cursor
+STATES_ENDED = [("full", "commit()"), ("full", "rollback()")]
 STATES_MORE = [("full_min", False), ("full_min", True)]
 
 
@@ -133,9 +140,15 @@ def build(state):
         conn = fs.connect()
     c = conn.cursor()
     c.execute("set myvar = 5")
-    if tx:
+    if tx in ("commit()", "rollback()"):
         c.execute("begin")
         c.execute("insert into db1.s1.t values (50, 'pending')")
+        c.execute("create table db1.s1.made_in_tx (v varchar(3)) comment = 'c'")
+        getattr(conn, tx[:-2])()
+    elif tx:
+        c.execute("begin")
+        c.execute("insert into db1.s1.t values (50, 'pending')")
+    conn._verif_cursor = c  # noqa: SLF001  the cursor that ran the set-up
     return fs, admin, conn
 
 
@@ -156,9 +169,18 @@ def expectation(ctxk, level, kind):
 def expand(item, acc: core.Acc, tier):
     state, stmts = item  # stmts: list of (id, level, sql, kind) executed in sequence (1 or 2 failing statements)
     ctxk, tx = state
-    fs, admin, conn = build(state)
     try:
-        cur = conn.cursor()
+        fs, admin, conn = build(state)
+    except Exception as e:  # noqa: BLE001
+        # the set-up consists of statements that succeed on a pristine process: if it fails, an earlier failing statement
+        # (of another session in this worker process) has left something behind in the library itself
+        acc.violation("C07.later_sessions_unaffected", f"setup_of_a_new_instance_fails,exc={type(e).__name__}", {"error": str(e)[:200], "state": state, "note": "needs the earlier items of the same worker process to reproduce"}, {"state": state, "stmts": stmts})
+        return
+    ended = tx if isinstance(tx, str) else None
+    pending_visible = bool(tx) and ended != "rollback()"
+    tx = bool(tx) and ended is None  # is a transaction of the user open while the failing statement runs
+    try:
+        cur = conn._verif_cursor if ended else conn.cursor()  # noqa: SLF001
         ok_chain = True
         for sid, level, sql, kind in stmts:
             pre = observe.digest(fs, [conn], views=True)
@@ -180,7 +202,7 @@ def expand(item, acc: core.Acc, tier):
             acc.nontrivial((state, sid, level))
             rp = {"state": state, "stmts": stmts}
             cls = f"stmt={sid},level={level}" + ("" if ctxk.startswith("full") else f",ctx={ctxk}")
-            txs = "tx" if tx else "notx"
+            txs = ("tx" if tx else "notx") if ended is None else f"notx,tx_ended_by={ended}"
             if got[0] == "ok":
                 if exp[0] == "missing_table":
                     acc.violation("C07.should_fail", cls, {"sql": sql, "state": state}, rp)
@@ -215,10 +237,10 @@ def expand(item, acc: core.Acc, tier):
                 ok_chain = False
         # usability suffix
         if ok_chain:
-            bad = suffix(fs, admin, conn, cur, tx)
+            bad = suffix(fs, admin, conn, cur, tx, pending_visible)
             if bad:
                 last = stmts[-1]
-                acc.violation("C07.usable_afterwards", f"stmt={last[0]},level={last[1]},{'tx' if tx else 'notx'},step={bad[0]}", {"after": [s[2] for s in stmts], "problem": bad}, {"state": state, "stmts": stmts})
+                acc.violation("C07.usable_afterwards", f"stmt={last[0]},level={last[1]},{txs},step={bad[0]}", {"after": [s[2] for s in stmts], "problem": bad}, {"state": state, "stmts": stmts})
         acc.sample({"state": state, "statements": [s[2] for s in stmts], "outcome": got}, cap=3)
     finally:
         fs.duck_conn.close()
@@ -239,7 +261,9 @@ def _diff(pre, post):
     return {k: {"before": repr(a[k])[:300], "after": repr(b[k])[:300]} for k in a if a[k] != b.get(k)}
 
 
-def suffix(fs, admin, conn, cur, tx):
+def suffix(fs, admin, conn, cur, tx, pending_visible=None):
+    if pending_visible is None:
+        pending_visible = tx
     try:
         cur.execute("select 1")
         if cur.fetchall() != [(1,)]:
@@ -248,7 +272,7 @@ def suffix(fs, admin, conn, cur, tx):
             return ("sqlstate_reset", cur.sqlstate)
         cur.execute("insert into db1.s1.t values (99, 'after')")
         cur.execute("select a from db1.s1.t where a >= 50 order by a")
-        want = [(50,), (99,)] if tx else [(99,)]
+        want = [(50,), (99,)] if pending_visible else [(99,)]
         if cur.fetchall() != want:
             return ("own_rows", "pending or new row not visible")
         ac = admin.cursor()
@@ -265,6 +289,28 @@ def suffix(fs, admin, conn, cur, tx):
         cur.execute("select $myvar")
         if cur.fetchall() != [(5,)]:
             return ("variable", "lost")
+        # statements answered by the library itself (no engine statement of their own) still work, here ...
+        cur.execute("set after_failure = 1")
+        cur.execute("select $after_failure")
+        if cur.fetchall() != [(1,)]:
+            return ("set_after_failure", "not set")
+        cur.execute("unset after_failure")
+        # ... and in a session of a NEW instance in this process (nothing of the failure may live in the library)
+        import fakesnow.instance as inst
+
+        fs2 = inst.FakeSnow()
+        try:
+            c2 = fs2.connect(database="db1", schema="s1").cursor()
+            c2.execute("set other_instance = 2")
+            c2.execute("create table o (v varchar(4)) comment = 'o'")
+            c2.execute("alter table o set tag k = 'v'")
+            c2.execute("select $other_instance")
+            if c2.fetchall() != [(2,)]:
+                return ("new_instance", "variable not set")
+        except Exception as e:  # noqa: BLE001
+            return ("new_instance", exc_info(e))
+        finally:
+            fs2.duck_conn.close()
     except Exception as e:  # noqa: BLE001
         return ("exception", exc_info(e))
     return None
@@ -273,6 +319,8 @@ def suffix(fs, admin, conn, cur, tx):
 CLOSED_OPS = [
     "execute", "executemany", "commit", "rollback", "execute_string", "description", "execute_on_old_cursor",
     "execute_multi_step_create", "execute_merge", "execute_comment", "execute_set", "execute_unset", "execute_use", "execute_nop_like",
+    # on the cursor that already carried out such statements while the connection was open
+    "multi_step_create_on_old_cursor", "merge_on_old_cursor", "comment_on_old_cursor",
 ]
 
 
@@ -286,6 +334,8 @@ def closed_case(op, acc: core.Acc, tier):
         old = conn.cursor()
         old.execute("create table t (a int)")
         old.execute("set before_close = 1")
+        old.execute("create table made_before (v varchar(3)) comment = 'c'")
+        old.execute("merge into t using (select 0 as a) s on t.a = s.a when matched then update set t.a = 0")
         old.execute("select 1")
         conn.close()
         try:
@@ -315,6 +365,12 @@ def closed_case(op, acc: core.Acc, tier):
                 old.execute("unset before_close")
             elif op == "execute_use":
                 conn.cursor().execute("use schema s1")
+            elif op == "multi_step_create_on_old_cursor":
+                old.execute("create table tt (name varchar(10)) comment = 'c'")
+            elif op == "merge_on_old_cursor":
+                old.execute("merge into t using (select 1 as a) s on t.a = s.a when not matched then insert (a) values (s.a)")
+            elif op == "comment_on_old_cursor":
+                old.execute("comment on table t is 'c'")
             elif op == "execute_nop_like":
                 conn.cursor().execute("alter table t set tag k = 'v'")
             got = ("ok",)
@@ -350,7 +406,9 @@ def run(ctx: core.Ctx):
         "every session state (context full/db-only/none x open transaction with a pending row or not [x minimal catalog in "
         "thorough]) x every failing statement of the catalogue (statement kinds x ways of referring to something missing or "
         "duplicate x 3 qualification levels); thorough adds all ordered pairs (first statement from a 12-statement subset) as "
-        "depth-2 failure sequences; each followed by the usability suffix; + every operation on a closed connection; "
+        "depth-2 failure sequences; + the multi-step failing statements on the session's long-lived cursor after a transaction "
+        "ended through the connection's commit()/rollback(); each followed by the usability suffix (incl. a new instance in "
+        "the same process); + every operation on a closed connection; "
         "non-trivial = distinct (state, statement)"
     )
     ctx.assumptions = ["ground truth before/after = raw DuckDB digest + session context + variables + open-transaction probe"]
@@ -366,6 +424,9 @@ def run(ctx: core.Ctx):
                 for s in cat:
                     if s is not f:
                         items.append((st, [f, s]))
+    multi = ("merge_target", "merge_source", "merge_fails_in_second_clause", "exists_table_with_lengths", "comment_on", "comment_on_column", "alter_set_comment", "alter_rename", "clone_source", "select_from", "exists_table")
+    items += [(st, [s]) for st in STATES_ENDED for s in cat if s[0] in multi and s[1] in ((0, 2) if ctx.quick else (0, 1, 2))]
+    states = states + STATES_ENDED
     ctx.pmap(expand, items)
     ctx.pmap(closed_case, CLOSED_OPS, recheck=False, parallel=False)
     for st in states:
